@@ -244,23 +244,30 @@ def run_paths(ctx, fn_name, engine, tag, wb, body, allowed_exc=(), max_paths=400
             chk.failed.append(("%s:no-exception" % fn_name, "%s: %s" % (type(e).__name__, str(e)[:200])))
         REPLAY.setdefault("failed", []).extend((c, tag, d) for c, d in chk.failed)
         return []
+    # the budget of a path is CPU time of this process (ITIMER_PROF), so that a busy machine cannot turn a slow path into a failed 'terminates'
+    # obligation; a wall-clock backstop at 10x catches code that blocks without using the CPU
     old = signal.signal(signal.SIGALRM, _alarm)
+    oldp = signal.signal(signal.SIGPROF, _alarm)
     try:
         return _run_paths(ctx, fn_name, engine, tag, wb, body, allowed_exc, max_paths)
     finally:
         signal.setitimer(signal.ITIMER_REAL, 0)
+        signal.setitimer(signal.ITIMER_PROF, 0)
         signal.signal(signal.SIGALRM, old)
+        signal.signal(signal.SIGPROF, oldp)
 
 
 def _run_paths(ctx, fn_name, engine, tag, wb, body, allowed_exc=(), max_paths=400):
     import signal
 
     def timed(chk):
-        signal.setitimer(signal.ITIMER_REAL, PATH_TIMEOUT_S, 0.25)
+        signal.setitimer(signal.ITIMER_PROF, PATH_TIMEOUT_S, 0.25)
+        signal.setitimer(signal.ITIMER_REAL, 10 * PATH_TIMEOUT_S, 0.25)
         ctx.nodecide = True
         try:
             return body(chk)
         finally:
+            signal.setitimer(signal.ITIMER_PROF, 0)
             signal.setitimer(signal.ITIMER_REAL, 0)
 
     """Explore every feasible path of body(chk) -> None.  body performs the call and adds
@@ -275,7 +282,7 @@ def _run_paths(ctx, fn_name, engine, tag, wb, body, allowed_exc=(), max_paths=40
             if exc is None:
                 continue
             if isinstance(exc, PathTimeout):
-                chk.add("terminates", False, "no result after %d s on this path: "
+                chk.add("terminates", False, "no result after %d s of CPU time on this path: "
                         "non-termination or blow-up" % PATH_TIMEOUT_S, tags={"timeout": True})
                 continue
             if isinstance(exc, SpecUndecided) or not getattr(exc, "_from_code", False) and not isinstance(exc, (PathTimeout, Concretisation)):
